@@ -19,6 +19,7 @@ is checked against both.  Operators that cannot be a covariance must raise.
 import itertools
 import json
 import os
+import time
 
 import numpy as np
 
@@ -176,8 +177,8 @@ def _cheeses(F, tgt, tier):
 def _catalogue(tier, seed):
     """-> list of (group, label, spec).  Full products of the alphabets, no sampling."""
     ops = []
-    sizes = [3] if tier == "quick" else [2, 3, 4]
-    variants = [0] if tier == "quick" else [0, 1]
+    sizes = [3, 2] if tier == "quick" else [3, 2, 4]
+    variants = [0] if tier == "quick" else [0, 1, 2]
     for N, var in itertools.product(sizes, variants):
         F = Fill(seed, 10 * N + var)
         tag = "N%d.v%d" % (N, var)
@@ -229,6 +230,15 @@ def _catalogue(tier, seed):
         s0 = sand(buns[0][1], diag(M.tgt_of(buns[0][1]), F.pos(N - 1), "f8"))
         ops.append(("sand", "%s|scaled-sandwich" % tag, dict(k="scaled", f=2.0, op=s0)))
         ops.append(("sand", "%s|inven-sandwich" % tag, dict(k="inven", op=s0)))
+        if tier != "quick":
+            si0 = sand(buns[2][1], diag(M.tgt_of(buns[2][1]), F.pos(N), "c16"))
+            for t in (1, 2, 3):
+                ops.append(("sand", "%s|adapter(%d)-of-sandwich-inv" % (tag, t), T(t, si0)))
+            e0 = enab(s0, diag(D, F.pos(N), "f8"))
+            ops.append(("sand", "%s|dense-tall|enabler-cheese" % tag, sand(dense([["un", N - 1]], D, F.matrix(N, N - 1)), e0)))
+            ops.append(("sand", "%s|dense-sq-inv|enabler-cheese" % tag, sand(dense(U, D, F.matrix(N, N), inv=True), e0)))
+            ops.append(("block", "%s|a=enabler|b=diag" % tag,
+                        dict(k="block", dom={"a": D, "b": U}, ops={"a": e0, "b": diag(U, F.pos(N), "f8")})))
         # multi-domain sandwich: bun MultiDomain -> un, and bun rg -> MultiDomain with block cheese
         nmd = M.dsize(MD)
         ops.append(("sand", "%s|multidom-bun|diag-f8" % tag,
@@ -290,6 +300,8 @@ def _catalogue(tier, seed):
                  ("diag-diag-neg", ssum([diag(D, F.pos(N), dt), diag(D, big, dt)], [False, True])),
                  ("diag-scal-pos", ssum([diag(D, big, dt), scal(D, 0.4, dt)], [False, True])),
                  ("diag+invdiag", ssum([diag(D, F.pos(N), dt), T(2, diag(D, F.pos(N), dt))])),
+                 ("invdiag+scal", ssum([T(2, diag(D, F.pos(N), dt)), scal(D, 0.4, dt)])),
+                 ("invdiag-scal", ssum([T(3, diag(D, [_r(0.2 * x) for x in F.pos(N)], dt)), scal(D, 0.4, dt)], [False, True])),
                  ("sandwide+diag", ssum([sw, diag(D, F.pos(N), dt)])),
                  ("sandwide+scal", ssum([sw, scal(D, 0.9, dt)])),
                  ("sandwide+sandinv", ssum([sw, si])),
@@ -540,11 +552,31 @@ def _key(case, symptom, kindlabel=None, direction=True):
     return "|".join(parts)
 
 
+def _where(e):
+    """file:function of the innermost nifty frame of an exception (semantic, no line numbers)."""
+    import traceback
+    loc = "?"
+    for fs in traceback.extract_tb(e.__traceback__):
+        if os.sep + "nifty" + os.sep in fs.filename:
+            loc = "%s:%s" % (os.path.basename(fs.filename), fs.name)
+    return loc
+
+
 def _eff_inv(case):
     return bool(case["inv"]) ^ bool(case["trafo"] & 2)
 
 
 def run(case):
+    t0 = time.process_time()
+    out = _run(case)
+    st = out.get("stats")
+    if not isinstance(st, dict):
+        st = out["stats"] = {}
+    st["cpu_s"] = round(time.process_time() - t0, 4)
+    return out
+
+
+def _run(case):
     import logging
     import warnings
     import nifty.cl as ift
@@ -568,8 +600,10 @@ def run(case):
             warnings.simplefilter("ignore")
             op = build(spec)
     except Exception as e:       # noqa
-        return bad("constructing the operator raised %r" % (e,),
-                   finding_key=_key(case, "construction:%s" % type(e).__name__, direction=False), detail=dict(label=case["label"]))
+        tags = [t for t in ("missing-entry",) if M.has_tag(spec, t)]
+        return bad("constructing the operator raised %r in %s" % (e, _where(e)),
+                   finding_key="|".join(["construction", type(e).__name__, _where(e)] + tags),
+                   detail=dict(label=case["label"]))
 
     # ---- premise: op.apply is the reference matrix (otherwise "covariance equal to the operator" is ambiguous)
     C, herm, mineig, Tgt = M.covariance_facts(spec, inv)
@@ -609,8 +643,8 @@ def run(case):
             return ok(nontrivial=True, outcome="%s|refused(%s)|%s" % (case["group"], why, et), stats=stats)
         if exp == M.DECLINE:
             return skip("declined: %s [%s]" % (why, et))
-        return bad("a valid covariance of a supported kind refused to sample: %r" % (e,),
-                   finding_key=_key(case, "refused-valid:%s" % et, kindlabel),
+        return bad("a valid covariance of a supported kind refused to sample: %r in %s" % (e, _where(e)),
+                   finding_key=_key(case, "refused-valid:%s@%s" % (et, _where(e)), kindlabel),
                    detail=dict(label=case["label"], mineig=mineig))
     stats["basis_runs"] = int(ndraw) + 1
     stats["excitation_dim"] = int(ndraw)
